@@ -490,7 +490,10 @@ Definition sstep_core (s : sstate) (o : op) : sstate * expect :=
 
 Definition sstep (s : sstate) (o : op) : sstate * expect :=
   let '(s1, x) := sstep_core s o in
-  (mkSS (ss_dirs s1) (ss_leaves s1) (S (ss_clock s1)), x).
+  (mkSS (ss_dirs s1) (ss_leaves s1) (S (ss_clock s)), x).
+
+Fixpoint srun (s : sstate) (ops : list op) : sstate :=
+  match ops with [] => s | o :: t => srun (fst (sstep s o)) t end.
 
 (* The trigger of the known finding F8: operation [o] asks to move a
    directory into itself or one of its descendants. *)
@@ -589,6 +592,15 @@ Definition oracle (x : expect) (s' : sstate) (o : op) (r : out) (dm : dump) : st
   if negb (listing_ok (x_listing x) r) then "C13:listing:" ++ op_name o else
   if negb (attrs_part o r s' dm)
   then "C13:attributes:" ++ op_name o else "".
+
+(* The oracle along a whole trace (operation, output, dump after it). *)
+Fixpoint oracle_all (s : sstate) (tr : list (op * out * dump)) : bool :=
+  match tr with
+  | [] => true
+  | (o, r, dm) :: t =>
+    let '(s', x) := sstep s o in
+    String.eqb (oracle x s' o r dm) "" && oracle_all s' t
+  end.
 
 (* ---- change counters ----------------------------------------------------- *)
 
